@@ -38,6 +38,31 @@ type runCase struct {
 	RandSeed int64  `json:"rand_seed"`
 	Sabotage bool   `json:"sabotage"`
 	Canon    bool   `json:"canonical"`
+	// several benchmarks in one simulation (amd/samples/concurrentkernel,
+	// concurrentworkload): the primary workload above is member 0; every
+	// member gets its own Driver.Init() context (= its own process id).
+	Extra []member `json:"extra_members,omitempty"`
+	GPUs  []int    `json:"member0_gpus,omitempty"` // GPUs of member 0 (pair cases only)
+	Order string   `json:"order,omitempty"`        // sequential | concurrent
+	Place string   `json:"placement,omitempty"`    // same-gpu | different-gpus
+}
+
+type member struct {
+	Workload string `json:"workload"`
+	Params   []int  `json:"params"`
+	ParamStr string `json:"param_str"`
+	GPUs     []int  `json:"gpus"`
+}
+
+func (c runCase) isPair() bool { return len(c.Extra) > 0 }
+
+// pairName is "<w1>+<w2>[+<w3>]".
+func (c runCase) pairName() string {
+	s := c.Workload
+	for _, m := range c.Extra {
+		s += "+" + m.Workload
+	}
+	return s
 }
 
 // flags returns the runner command line of the case: exactly what a user of
@@ -51,7 +76,7 @@ func (c runCase) flags(w *workload) []string {
 	if w.Oracle != oCross {
 		f = append(f, "-verify")
 	}
-	ids := []string{"1", "1,2", "", "1,2,3,4"}[c.Class.NGPU-1]
+	ids := []string{"1", "1,2", "1,2,3", "1,2,3,4"}[c.Class.NGPU-1]
 	if c.Class.UnifiedGPU {
 		f = append(f, "-unified-gpus="+ids)
 	} else {
@@ -70,6 +95,13 @@ func (c runCase) flags(w *workload) []string {
 }
 
 func (c runCase) tripleKey() string {
+	if c.isPair() {
+		s := "pair:" + c.Workload + "(" + c.ParamStr + ")"
+		for _, m := range c.Extra {
+			s += "+" + m.Workload + "(" + m.ParamStr + ")"
+		}
+		return s + "|" + c.Class.Arch + "/" + c.Class.mode() + "|" + c.Place + "|" + c.Order
+	}
 	return c.Workload + "|" + c.ParamStr + "|" + c.Class.String()
 }
 
@@ -281,7 +313,7 @@ func allParked(dump string) bool {
 			continue
 		}
 		relevant := strings.Contains(body, "mgpusim/v4/") || strings.Contains(body, "akita/v4/sim") ||
-			strings.Contains(body, "main.childMain") || strings.Contains(body, "main.(*wrapBench)")
+			strings.Contains(body, "main.childMain") || strings.Contains(body, "main.(*wrapBench)") || strings.Contains(body, "main.(*seqBench)")
 		if !relevant {
 			continue
 		}
@@ -319,6 +351,13 @@ type wrapBench struct {
 	rec    *vlib.ChildRecorder
 	tr     *cmdTracer
 	oracle string
+	idx    int // member index (0 for ordinary cases)
+}
+
+func (w *wrapBench) snap() map[string]int64 {
+	s := w.tr.snapshot()
+	s["member"] = int64(w.idx)
+	return s
 }
 
 func (w *wrapBench) SelectGPU(g []int) { w.inner.SelectGPU(g) }
@@ -335,17 +374,40 @@ func (w *wrapBench) EnableVerification() {
 
 func (w *wrapBench) Run() {
 	w.inner.Run()
-	w.rec.Note("run_returned", w.tr.snapshot())
+	w.rec.Note("run_returned", w.snap())
 	if w.oracle == oCross {
 		// no -verify for these: the operator cross-check ran inside Run()
-		w.rec.Note("verified", w.tr.snapshot())
+		w.rec.Note("verified", w.snap())
 	}
 }
 
 func (w *wrapBench) Verify() {
 	w.inner.Verify()
-	w.rec.Note("verified", w.tr.snapshot())
+	w.rec.Note("verified", w.snap())
 }
+
+// seqBench runs its members one after the other in one application
+// goroutine: Run and Verify of member 0, then Run and Verify of member 1, ...
+// It is added to the runner as one benchmark; every member keeps the context
+// (process) its constructor created with Driver.Init().
+type seqBench struct{ members []*wrapBench }
+
+func (s *seqBench) SelectGPU([]int)   {}
+func (s *seqBench) SetUnifiedMemory() {}
+func (s *seqBench) EnableVerification() {
+	for _, m := range s.members {
+		m.EnableVerification()
+	}
+}
+func (s *seqBench) Run() {
+	for _, m := range s.members {
+		m.Run()
+		if m.oracle != oCross {
+			m.Verify()
+		}
+	}
+}
+func (s *seqBench) Verify() {}
 
 // ---------------------------------------------------------------------------
 
@@ -430,10 +492,37 @@ func childMain() {
 		rec.Note("infra", fmt.Sprintf("runner did not take the flags: arch=%v timing=%v um=%v", r.ArchType, r.Timing, r.UseUnifiedMemory))
 		os.Exit(4)
 	}
-	inner := w.Build(d, a, cs.Params)
-	wb := &wrapBench{inner: inner, rec: rec, tr: tr, oracle: w.Oracle}
-	r.AddBenchmark(wb)
-	rec.Note("built", reflect.TypeOf(inner).String())
+	if cs.isPair() {
+		// several benchmark objects on one driver, as amd/samples/
+		// concurrentkernel and concurrentworkload do: each constructor calls
+		// Driver.Init(), each benchmark selects its own GPUs, and the runner
+		// gets them through AddBenchmarkWithoutSettingGPUsToUse
+		all := append([]member{{Workload: cs.Workload, Params: cs.Params, ParamStr: cs.ParamStr, GPUs: cs.GPUs}}, cs.Extra...)
+		var wbs []*wrapBench
+		for i, m := range all {
+			mw := findWorkload(m.Workload)
+			if mw == nil || mw.Oracle == oCross {
+				rec.Note("infra", "pair member "+m.Workload+" unknown or without Verify()")
+				os.Exit(4)
+			}
+			inner := mw.Build(d, a, m.Params)
+			inner.SelectGPU(m.GPUs)
+			wbs = append(wbs, &wrapBench{inner: inner, rec: rec, tr: tr, oracle: mw.Oracle, idx: i})
+		}
+		if cs.Order == "sequential" {
+			r.AddBenchmarkWithoutSettingGPUsToUse(&seqBench{members: wbs})
+		} else {
+			for _, b := range wbs {
+				r.AddBenchmarkWithoutSettingGPUsToUse(b)
+			}
+		}
+		rec.Note("built", fmt.Sprintf("%d members, %s, %s", len(wbs), cs.Order, cs.Place))
+	} else {
+		inner := w.Build(d, a, cs.Params)
+		wb := &wrapBench{inner: inner, rec: rec, tr: tr, oracle: w.Oracle}
+		r.AddBenchmark(wb)
+		rec.Note("built", reflect.TypeOf(inner).String())
+	}
 
 	stop := make(chan struct{})
 	go watch(mon, d, rec, tr, stop)
